@@ -239,6 +239,9 @@ macro_rules! unimpl2 {
     ($($f:ident)*) => {$( fn $f(self, _o: Self) -> Self { unimplemented!(concat!("Fp::", stringify!($f))) } )*};
 }
 
+/// see `Fp::sqrt`
+pub static mut CANONICAL_SQRT: bool = false;
+
 impl<const P: u16> Float for Fp<P> {
     unimpl0! { nan infinity neg_infinity }
     fn neg_zero() -> Self {
@@ -312,6 +315,11 @@ impl<const P: u16> Float for Fp<P> {
         let r: u16 = kani::any();
         kani::assume(r < P);
         kani::assume((r as u32 * r as u32) % P as u32 == self.0 as u32);
+        // a harness that compares two computations of the same quantity needs sqrt to be a FUNCTION:
+        // it then asks for the canonical root (the one with the smaller representative)
+        if unsafe { CANONICAL_SQRT } {
+            kani::assume(r <= P / 2);
+        }
         Fp(r)
     }
     #[cfg(not(kani))]
